@@ -153,6 +153,12 @@ def rule_validators(repo: Repo, rid: str = "C05.validators", cls: str = "Problem
                     continue
                 for x in tr:
                     if "askey" in x:
+                        # the NAME that keys the object lookup was itself taken from the keys of a dict / a set of the argument tokens:
+                        # repeated arguments collapse there as well, the i-th name no longer meets the i-th declared type
+                        k_ = len(x) - 1 - x[::-1].index("askey")
+                        if x[0].startswith("param:") and any(st == "in:key" or st.startswith("in:setkey@") or st in ("arg0:set", "arg0:frozenset", "arg0:Counter")
+                                                             for st in x[:k_]) and any(st.startswith("arg") and st.endswith(":zip") or st == "arg0:enumerate" for st in x[:k_]):
+                            by_name.append((c, True))
                         continue
                     for i, st in enumerate(x[:-1]):
                         # the type became a VALUE of a dict (display / comprehension / d[k] = v / dict(zip(keys, values))) that is read back with .values()
@@ -477,4 +483,13 @@ def rules(repo: Repo, tier: str) -> List[RuleResult]:
         rule_goal(repo),
         rule_value(repo),
         c01.rule_dupkeys(repo, "C05.dupkeys", ["ProblemParser.parse_grounded_numeric_fluent"]),
+        _rule_memo(repo, "C05.cache"),
     ]
+
+
+def _rule_memo(repo: Repo, rid: str) -> RuleResult:
+    """the type tests and lookups the validators rely on answer for the domain / problem at hand: a memo keyed by names that outlives the
+    objects (decorator or module- / class-level dict) answers for an earlier domain with equal type names"""
+    from . import c19
+    mods = ("models.pddl_type", "models.pddl_object", "models.pddl_predicate", "models.pddl_function", PP)
+    return c19.rule_cache(repo, rid, lambda f: any(f.mod.name.endswith(m) for m in mods), manual=True, objects=True)
